@@ -47,16 +47,17 @@ Definition fu_pos_of (fuhdr : N) : N :=
   else if negb (N.land fuhdr 64 =? 0) then pos_fu_end
   else pos_fu_middle.
 
-(* calcPositionIfNeededAvc *)
+(* calcPositionIfNeededAvc.  A body too short for its payload header gets no
+   position (C13 fix 24f0e14; the pinned tree indexed past the body). *)
 Definition calc_position_avc (b : bytes) : res N :=
   match b with
-  | [] => Panic site_calcpos_avc
+  | [] => Ok pos_unknown
   | b0 :: t =>
       let ty := avc_nal_type b0 in
       if ty <=? 23 then Ok pos_single
       else if ty =? 28 then
         match t with
-        | [] => Panic site_calcpos_avc
+        | [] => Ok pos_unknown
         | b1 :: _ => Ok (fu_pos_of b1)
         end
       else if ty =? 24 then Ok pos_stapa
@@ -66,16 +67,20 @@ Definition calc_position_avc (b : bytes) : res N :=
 (* calcPositionIfNeededHevc *)
 Definition calc_position_hevc (b : bytes) : res N :=
   match b with
-  | [] => Panic site_calcpos_hevc
+  | [] => Ok pos_unknown
   | b0 :: t =>
       let ty := hevc_nal_type b0 in
       if hevc_type_known ty then Ok pos_single
       else if ty =? 49 then
         match t with
         | _ :: b2 :: _ => Ok (fu_pos_of b2)
-        | _ => Panic site_calcpos_hevc
+        | _ => Ok pos_unknown
         end
-      else if ty =? 48 then Ok pos_ap
+      else if ty =? 48 then
+        match t with
+        | [] => Ok pos_unknown
+        | _ :: _ => Ok pos_ap
+        end
       else Ok pos_unknown
   end.
 
@@ -189,16 +194,21 @@ Fixpoint parse_au_loop (n : nat) (b : bytes) (pauh pau : N) : res (list (N * N))
       end
   end.
 
+(* parseAu with the three length guards of C13 fix 420cb65: a body that
+   cannot hold the announced AU-header section, or (for more than one AU) the
+   announced access units, yields no access unit *)
 Definition parse_au (b : bytes) : res (list (N * N)) :=
   match b with
   | b0 :: b1 :: _ =>
       let ahl := (b0 * 256 + b1 + 7) / 8 in
-      (* nbAuHeaders <= 4096; clipped by the body length so that the unary
-         counter stays small: the loop panics at the first header that is
-         not inside the body *)
       let nb := ahl / 2 in
-      parse_au_loop (N.to_nat (N.min nb (lenN b))) b 2 (2 + ahl)
-  | _ => Panic site_parseau_index
+      if lenN b <? 2 + ahl then Ok []
+      else
+        (* 2*nb <= ahl <= len b - 2: the unary counter is bounded by the body *)
+        let* r := parse_au_loop (N.to_nat nb) b 2 (2 + ahl) in
+        let pau := fold_left (fun a x => a + fst x) r (2 + ahl) in
+        if (1 <? nb) && (lenN b <? pau) then Ok [] else Ok r
+  | _ => Ok []
   end.
 
 (* b[pos:pos+size] *)
